@@ -120,6 +120,7 @@ def run(ctx):
     jwe_multi_gate(ctx)
     jwe_unknown_names(ctx)
     jws_unknown_names(ctx)
+    keys_with_alg_member(ctx)
     jwt_gate(ctx)
     none_alg(ctx)
     # ---------------- (c) history
@@ -363,6 +364,58 @@ def jws_unknown_names(ctx):
                         ctx.report(f"{cname} with the unsupported alg name {name!r} ({via}={allow}): {out}",
                                    {"call": cname, "token": tok.decode(), "header": hdr, "allow": allow, "via": via, "key": key.as_dict()},
                                    f"unknown-name:jws:{'listed' if listed else 'unlisted'}")
+
+
+def keys_with_alg_member(ctx):
+    """The allow-list is the caller's (or the recommended set), whatever the KEY says about itself: a key whose JWK carries
+    "alg" (single key, key-set member, callable) does not make that algorithm usable when it is not allowed, and does not
+    narrow the default set for its own algorithm when it is recommended - under the default list, for verification
+    (all entry points) and signing."""
+    from joserfc import jws, jwt, rfc7797
+    from joserfc.jwk import KeySet
+    rng = ctx.rng
+    algs = J.ALL_ALGS if ctx.tier != "quick" else ["HS256", "HS384", "RS256", "RS512", "ES256", "ES384", "PS256", "EdDSA", "ES256K", "HS512"]
+    for alg in algs:
+        kn = J.ALG_KEYS[alg][0]
+        native = J.native_priv(kn)
+        hdr = {"alg": alg}
+        hseg = J.b64u(J.jwsref.spell(hdr, rng, 0))
+        pseg = J.b64u(b'{"iss":"a"}')
+        sig = J.b64u(J.jwsref.sign(alg, native, hseg + b"." + pseg))
+        tok = hseg + b"." + pseg + b"." + sig
+        flat = {"protected": hseg.decode(), "payload": pseg.decode(), "signature": sig.decode()}
+        general = {"payload": pseg.decode(), "signatures": [{"protected": hseg.decode(), "signature": sig.decode()}]}
+        want = alg in REC_JWS
+        for form in ("key", "set", "callable"):
+            pub = J.make_key(kn, private=False, alg=alg, **({"kid": "k1"} if form == "set" else {}))
+            priv = J.make_key(kn, private=True, alg=alg, **({"kid": "k1"} if form == "set" else {}))
+            karg = {"key": pub, "set": KeySet([pub]), "callable": (lambda obj, pub=pub: pub)}[form]
+            sarg = {"key": priv, "set": KeySet([priv]), "callable": (lambda obj, priv=priv: priv)}[form]
+            calls = {
+                "deserialize_compact": lambda: jws.deserialize_compact(tok, karg),
+                "extract+validate_compact": lambda: (_ for _ in ()).throw(jws.BadSignatureError()) if not jws.validate_compact(jws.extract_compact(tok), karg) else True,
+                "deserialize_json-flat": lambda: jws.deserialize_json(copy.deepcopy(flat), karg),
+                "deserialize_json-general": lambda: jws.deserialize_json(copy.deepcopy(general), karg),
+                "7797.deserialize_compact": lambda: rfc7797.deserialize_compact(tok, karg),
+                "7797.deserialize_json": lambda: rfc7797.deserialize_json(copy.deepcopy(flat), karg),
+                "jwt.decode": lambda: jwt.decode(tok, karg),
+                "serialize_compact": lambda: jws.serialize_compact(dict(hdr), b"p", sarg),
+                "serialize_json-flat": lambda: jws.serialize_json({"protected": dict(hdr)}, b"p", sarg),
+                "jwt.encode": lambda: jwt.encode(dict(hdr), {"iss": "a"}, sarg),
+            }
+            for cname, fn in calls.items():
+                try:
+                    fn()
+                    out = "ok"
+                except Exception as e:  # noqa: BLE001
+                    out = err_name(e)
+                ctx.count("key-alg-member", (alg, form, cname), True, f"{'rec' if want else 'nonrec'}:{out}")
+                if want and out != "ok":
+                    ctx.report(f"{cname}: recommended {alg} with a key ({form}) whose JWK says alg={alg}, default allow-list: {out}",
+                               {"call": cname, "alg": alg, "form": form, "token": tok.decode(), "key": pub.as_dict()}, "key-alg:refused")
+                if not want and out != "UnsupportedAlgorithmError":
+                    ctx.report(f"{cname}: {alg} is not in the default allow-list, the key ({form}) says alg={alg} about itself: {out}",
+                               {"call": cname, "alg": alg, "form": form, "token": tok.decode(), "key": pub.as_dict()}, "key-alg:" + ("used" if out == "ok" else "wrong-error"))
 
 
 def jwe_multi_gate(ctx):
